@@ -81,6 +81,25 @@ def dispatch_table(F):
     return out, sm
 
 
+def end_answered_before_dispatch(F):
+    """parse() tests `state == End` and the call of state_machine lies on the 'not End' edge (so the unreachable!() of the End arm is)"""
+    P_ = PARSER + "::"
+    sm = F.fn(P_ + "state_machine")
+    pf = F.fn(P_ + "parse")
+    okend = False
+    smc = [bb for bb, t, ck, fr in pf.calls() if ck == sm.key]
+    for bi, b in enumerate(pf.blocks):
+        if b["cleanup"] or b["term"]["k"] != "switch":
+            continue
+        e = cfg.expr_operand(pf, b["term"]["discr"], 8)
+        s = cfg.expr_str(e)
+        if "state" in s and "State::End" in s.replace(" ", "") or ("eq" in s and "state" in s):
+            m, other = cfg.switch_edge_blocks(pf, bi)
+            if smc and 0 in m and cfg.dominated_by_edge(pf, smc[0], bi, m[0]):
+                okend = True
+    return okend, pf
+
+
 def run(tier):
     rep = new_report(tier)
     F = facts.load()
@@ -106,18 +125,7 @@ def run(tier):
     for nm in roles["states"]:
         rep.check(nm in state_names, "dispatch", "table:" + nm, "the role table names a state that no longer exists")
     # parse(): End answered before dispatch
-    pf = F.fn(P + "parse")
-    okend = False
-    smc = [bb for bb, t, ck, fr in pf.calls() if ck == sm.key]
-    for bi, b in enumerate(pf.blocks):
-        if b["cleanup"] or b["term"]["k"] != "switch":
-            continue
-        e = cfg.expr_operand(pf, b["term"]["discr"], 8)
-        s = cfg.expr_str(e)
-        if "state" in s and "State::End" in s.replace(" ", "") or ("eq" in s and "state" in s):
-            m, other = cfg.switch_edge_blocks(pf, bi)
-            if smc and 0 in m and cfg.dominated_by_edge(pf, smc[0], bi, m[0]):
-                okend = True
+    okend, pf = end_answered_before_dispatch(F)
     rep.check(okend, "dispatch", "parse:End", "parse() no longer returns StreamEnd before dispatching when state == End", site=pf.span)
 
     # R1 role typing
